@@ -852,6 +852,92 @@ def simplify_boolean_expressions(source: str) -> str:
         yield node, ast.Constant(value=value, kind=None)
 
 
+def _boolean_operands(node: ast.AST) -> Sequence[ast.AST]:
+    """The operands of a formula of and/or/not, in the order Python evaluates them."""
+    if isinstance(node, ast.BoolOp):
+        return [operand for value in node.values for operand in _boolean_operands(value)]
+    if isinstance(node, ast.UnaryOp) and isinstance(node.op, ast.Not):
+        return _boolean_operands(node.operand)
+    return [node]
+
+
+def _order_operands_like(node: ast.AST, position: Mapping[str, int]) -> ast.AST:
+    """Sort the operands of every and/or by where they first occur in the original formula.
+
+    sympy keeps the arguments of And and Or in an order of its own. Python evaluates them from
+    left to right, and `x and 10 // x > 1` must not become `10 // x > 1 and x`.
+    """
+    if isinstance(node, ast.BoolOp):
+        values = [_order_operands_like(value, position) for value in node.values]
+        values.sort(
+            key=lambda value: min(
+                position.get(core.unparse(operand), len(position))
+                for operand in _boolean_operands(value)
+            )
+        )
+        return ast.BoolOp(op=node.op, values=values)
+    if isinstance(node, ast.UnaryOp) and isinstance(node.op, ast.Not):
+        return ast.UnaryOp(op=node.op, operand=_order_operands_like(node.operand, position))
+    return node
+
+
+def _evaluate_boolean(node: ast.AST, truth: Mapping[str, bool]) -> Tuple[bool, Tuple[str, ...]]:
+    """Truth value of a formula of and/or/not, and the operands evaluated on the way, in order."""
+    if isinstance(node, ast.BoolOp):
+        decides = isinstance(node.op, ast.Or)
+        evaluated = ()
+        for value in node.values:
+            result, trace = _evaluate_boolean(value, truth)
+            evaluated += trace
+            if result is decides:
+                return decides, evaluated
+        return not decides, evaluated
+    if isinstance(node, ast.UnaryOp) and isinstance(node.op, ast.Not):
+        result, evaluated = _evaluate_boolean(node.operand, truth)
+        return not result, evaluated
+    if isinstance(node, ast.Constant):
+        return bool(node.value), ()
+    code = core.unparse(node)
+    return truth[code], (code,)
+
+
+def _is_total(node: ast.AST) -> bool:
+    """Evaluating the operand has no effect and cannot fail: names, numbers, + - * and comparisons."""
+    total = (ast.Name, ast.Constant, ast.Compare, ast.BinOp, ast.UnaryOp, ast.expr_context)
+    total += (ast.cmpop, ast.unaryop, ast.Add, ast.Sub, ast.Mult)
+    return all(isinstance(child, total) for child in ast.walk(node))
+
+
+def _evaluates_alike(node: ast.AST, simplified: ast.AST) -> bool:
+    """In every case the two formulas have the same truth value, and the simplified one evaluates
+    no operand that may fail or have an effect (a division, a subscript, a call) unless the
+    original evaluates it as well, and in the same order."""
+    operands = {
+        core.unparse(operand): operand
+        for operand in _boolean_operands(node)
+        if not isinstance(operand, ast.Constant)
+    }
+    if not all(
+        core.unparse(operand) in operands or isinstance(operand, ast.Constant)
+        for operand in _boolean_operands(simplified)
+    ):
+        return False
+    if len(operands) > 10:
+        return False
+    watched = {code for code, operand in operands.items() if not _is_total(operand)}
+    for values in itertools.product((False, True), repeat=len(operands)):
+        truth = dict(zip(operands, values))
+        before, evaluated_before = _evaluate_boolean(node, truth)
+        after, evaluated_after = _evaluate_boolean(simplified, truth)
+        if before is not after:
+            return False
+        remaining = iter(evaluated_before)
+        if not all(code in remaining for code in evaluated_after if code in watched):
+            return False  # Not a subsequence
+
+    return True
+
+
 @processing.fix
 def simplify_boolean_expressions_symmath(source: str) -> str:
     root = core.parse(source)
@@ -873,9 +959,18 @@ def simplify_boolean_expressions_symmath(source: str) -> str:
 
         node_complexity = sum(len(x.values) for x in core.walk(node, ast.BoolOp))
         simplified_complexity = sum(len(x.values) for x in core.walk(simplified, ast.BoolOp))
+        if simplified_complexity >= node_complexity:
+            continue
 
-        if simplified_complexity < node_complexity:
-            yield node, simplified
+        position = {}
+        for index, operand in enumerate(_boolean_operands(node)):
+            position.setdefault(core.unparse(operand), index)
+        simplified = _order_operands_like(simplified, position)
+        if not _evaluates_alike(node, simplified):
+            # An operand would be evaluated where it was guarded before, or is evaluated no more
+            continue
+
+        yield node, simplified
 
 
 @processing.fix
